@@ -360,7 +360,7 @@ class Builder:
         if t == 'not':
             return sym.LogicalNot(X(e[1]))
         if t == 'call':
-            fn = sym.ProcedureSymbol(e[1], type=SymbolAttributes(ProcedureType(name=e[1], is_function=True)))
+            fn = sym.ProcedureSymbol(e[1], type=SymbolAttributes(ProcedureType(name=e[1], is_function=True, return_type=SymbolAttributes(BasicType.REAL))))
             return sym.InlineCall(fn, parameters=tuple(X(c) for c in e[2]),
                                   kw_parameters={k: X(v) for k, v in e[3]})
         if t == 'cast':
@@ -475,7 +475,8 @@ class Builder:
         else:
             raise ValueError(f'unknown node kind {k}')
         if self.shared_dups and k in LEAVES:
-            key = (k, m, d.get('label'), d.get('text'))
+            import json as _json
+            key = _json.dumps(d, sort_keys=True)
             n = self._shared.setdefault(key, n)
         if register:
             self.nodes[slot] = n
